@@ -2,6 +2,7 @@
 """mutprompt.py Cxx N -> prompt for a mutation-seeding agent (property text only)"""
 import json, sys
 pid, n = sys.argv[1], sys.argv[2]
+extra = sys.argv[3] if len(sys.argv) > 3 else ""
 p = {json.loads(l)["id"]: json.loads(l) for l in open("/verif/properties.jsonl")}[pid]
 wt = "/tmp/wt-mut-%s-%s" % (pid.lower(), n)
 print(f"""You are testing a verification effort by seeding a realistic bug. You get a scratch git worktree of the Python library dclab at {wt} (a checkout of the project's HEAD with the compiled extension modules copied in; run code with `cd {wt} && PYTHONPATH={wt} /venv/bin/python ...`; the test suite runs with `cd {wt} && /venv/bin/python -m pytest -q -p no:cacheprovider -x tests/<file>`). Work ONLY inside {wt} (and scratch files under /tmp/mutwork-{pid.lower()}-{n}/); never read or write /verif or /repo. There is no network. Cython is not installed, so do not change .pyx/.c/.so files — change Python files only.
@@ -22,4 +23,4 @@ Deliver, all inside {wt}:
   - the change itself left applied in the worktree (uncommitted), and `git -C {wt} diff > {wt}/MUTATION.diff`
   - `{wt}/demo.py`: a small self-contained program (uses only dclab and its dependencies, writes only under a fresh temp dir that it removes) that exits non-zero / prints FAIL with the change and exits 0 / prints PASS without it. Verify both yourself: run it with the change, then revert the change with `git -C {wt} diff > /tmp/mutwork-{pid.lower()}-{n}/m.diff; git -C {wt} apply -R /tmp/mutwork-{pid.lower()}-{n}/m.diff`, run it again, and re-apply with `git -C {wt} apply /tmp/mutwork-{pid.lower()}-{n}/m.diff`. NEVER use `git stash` (the stash is shared with other worktrees of the same repository and other people are using it). Note that a demo.py placed in the worktree imports the worktree's dclab, because the script's directory comes first on sys.path.
   - `{wt}/MUTATION.md`: 5-10 lines: what you changed, why it breaks the property, what is needed for it to manifest, which tests you ran and their result.
-Finish with a report of at most 15 lines. Do not make more than one mutation; choose one that is subtle but definitely a violation of the property as stated.""")
+Finish with a report of at most 15 lines. Do not make more than one mutation; choose one that is subtle but definitely a violation of the property as stated.{extra}""")
